@@ -84,6 +84,14 @@ struct NewThreadDrainRegistrar {
   }
 };
 
+#if defined(DISPENSO_VERIF)
+// Index of the next NewThreadInvoker thread (names the logical thread for the verification harness).
+inline std::atomic<long long>& verifNewThreadCounter() {
+  static std::atomic<long long> counter{0};
+  return counter;
+}
+#endif // DISPENSO_VERIF
+
 inline void ensureNewThreadDrainRegistered() {
   static NewThreadDrainRegistrar registrar;
   (void)registrar;
@@ -134,10 +142,16 @@ class NewThreadInvoker {
     // this thread at exit in a shared build.
     detail::ensureNewThreadDrainRegistered();
     auto done = std::make_shared<std::atomic<bool>>(false);
+#if defined(DISPENSO_VERIF)
+    const long long verifThreadIndex = detail::verifNewThreadCounter().load();
+#endif // DISPENSO_VERIF
     std::thread thread([f = std::move(f), done]() {
+      DISPENSO_VERIF_THREAD_BEGIN("nt", nullptr, detail::verifNewThreadCounter().fetch_add(1));
       f();
+      DISPENSO_VERIF_THREAD_END("nt", nullptr);
       done->store(true, std::memory_order_release);
     });
+    DISPENSO_VERIF_THREAD_SPAWNED("nt", nullptr, verifThreadIndex);
     getTracker()->add(std::move(thread), std::move(done));
   }
 
